@@ -196,6 +196,15 @@ Theorem C01_sample_key_roundtrip :
 Proof. exact sample_roundtrip. Qed.
 Print Assumptions C01_sample_key_roundtrip.
 
+(* sampled mode: the chunk loop of _statevector_to_frequencies has the modelled shape (regenerated fact,
+   with a positive chunk constant) and the chunks it draws add up to n_shots for EVERY n_shots and chunk
+   size — in particular when n_shots is an exact multiple of the chunk size *)
+Theorem C01_sampling_chunks_cover_n_shots :
+  sampling_loop_as_modelled = true /\ (0 < sampling_chunk_size)%N
+  /\ forall n_shots chunk_size : nat, (0 < chunk_size)%nat -> list_sum (chunk_sizes n_shots chunk_size) = n_shots.
+Proof. split; [reflexivity|]. split; [reflexivity|]. exact chunk_sizes_total. Qed.
+Print Assumptions C01_sampling_chunks_cover_n_shots.
+
 (* 11. _statevector_to_frequencies on cirq's vector of the state psi (no threshold): the entry stored
        under the string listing qubit 0 first is |psi(x)|^2, it is the only entry under that key, and
        the frequencies add up to the squared norm; with a threshold exactly the entries that pass it
